@@ -229,7 +229,7 @@ theorem recommend_cases (find : Bytes → Nat → Bytes → Option Nat) (cfg : C
     ∃ k old, (k + 1) * dirSz ≤ st.dir.bytes.length ∧
       find st.dir.bytes (st.dir.bytes.length / dirSz) q.name = some k ∧
       nameEq q.name (field (record st.dir.bytes dirSz k) offFilename lenFilename) = true ∧
-      refusedBy cfg q (record st.dir.bytes dirSz k) = false ∧
+      refusedBy cfg q (record st.dir.bytes dirSz k) = false ∧ hasLineBreak q.text = false ∧
       fileGet st.files (cstr (field (record st.dir.bytes dirSz k) offFilename lenFilename)) = some old ∧
       recommend find cfg st q = (accepted cfg st q k old, .ok (formatComment cfg q) (k + 1)) := by
   unfold recommend
@@ -262,6 +262,11 @@ theorem recommend_cases (find : Bytes → Nat → Bytes → Option Nat) (cfg : C
         · intro l i h; cases h
         · rw [if_pos hr]
       · rw [if_neg hr]
+        by_cases hb : hasLineBreak q.text = true
+        · left; refine ⟨Res.badText, ?_, ?_⟩
+          · intro l i h; cases h
+          · rw [if_pos hb]
+        rw [if_neg hb]
         unfold doAddRecommend
         simp only []
         cases hf : fileGet st.files (cstr (field (record st.dir.bytes dirSz k) offFilename lenFilename)) with
@@ -270,7 +275,7 @@ theorem recommend_cases (find : Bytes → Nat → Bytes → Option Nat) (cfg : C
           intro l i h; cases h
         | some old =>
           right
-          refine ⟨k, old, hle, hk, hne, by simpa using hr, hf, ?_⟩
+          refine ⟨k, old, hle, hk, hne, by simpa using hr, by simpa using hb, hf, ?_⟩
           simp only []
           by_cases hm : q.mtime > 0
           · rw [if_pos hm]
@@ -445,5 +450,12 @@ theorem lineBody_no_newline (cfg : Cfg) (q : Req) (hu : 10 ∉ q.user) (ht : 10 
     refine ⟨⟨⟨⟨⟨⟨⟨⟨⟨hc2, by decide⟩, by decide⟩, hc1⟩, hub⟩, ⟨⟨hr, hc1⟩, by decide⟩⟩, ht⟩, by simp⟩, ⟨hr, by decide⟩⟩, htl⟩
   · simp only [List.mem_append, List.mem_replicate, not_or]
     refine ⟨⟨⟨⟨⟨⟨⟨⟨hty, by decide⟩, hc1⟩, hub⟩, ⟨⟨⟨hr, hc1⟩, by decide⟩, by decide⟩⟩, ht⟩, by simp⟩, hr⟩, htl⟩
+
+theorem not_mem_of_hasLineBreak_false {text : Bytes} (h : hasLineBreak text = false) : 10 ∉ text ∧ 13 ∉ text := by
+  unfold hasLineBreak at h
+  rw [List.any_eq_false] at h
+  constructor
+  · intro hm; exact absurd (h 10 hm) (by decide)
+  · intro hm; exact absurd (h 13 hm) (by decide)
 
 end PttVerif.C10
